@@ -367,6 +367,71 @@ func extractStore(t *T) (string, error) {
 		}
 	}
 
+
+	// every acquireSyncRef(x) in Get/Set/Delete is paired with releaseSyncRef(x, ref): same ID expression
+	relSameID := true
+	for _, fn := range []string{"Get", "Set", "Delete"} {
+		fd := FuncDecl(wf, "WriteControlledStore", fn)
+		if fd == nil {
+			relSameID = false
+			continue
+		}
+		var acq, rel []string
+		ast.Inspect(fd.Body, func(n ast.Node) bool {
+			call, ok := n.(*ast.CallExpr)
+			if !ok {
+				return true
+			}
+			if sel, ok := call.Fun.(*ast.SelectorExpr); ok {
+				if sel.Sel.Name == "acquireSyncRef" && len(call.Args) == 1 {
+					acq = append(acq, normSrc(t.Src(wrel, call.Args[0])))
+				}
+				if sel.Sel.Name == "releaseSyncRef" && len(call.Args) == 2 {
+					rel = append(rel, normSrc(t.Src(wrel, call.Args[0])))
+				}
+			}
+			return true
+		})
+		if len(acq) != 1 || len(rel) != 1 || acq[0] != rel[0] {
+			relSameID = false
+		}
+	}
+	// Delete(ids...) of the wrapper: one acquire/lock/impl.Delete(id)/unlock/release per ID inside a range loop;
+	// DeleteUnchecked hands the whole batch to the wrapped store
+	wcsDeleteLoop, uncheckedForwards := false, false
+	if fd := FuncDecl(wf, "WriteControlledStore", "Delete"); fd != nil && len(fd.Body.List) == 2 {
+		if rs, ok := fd.Body.List[0].(*ast.RangeStmt); ok {
+			src := normSrc(t.Src(wrel, rs.Body))
+			wcsDeleteLoop = strings.Contains(src, "return w.impl.Delete(id)") && strings.Contains(src, "}(); err != nil { return err }")
+		}
+	}
+	if fd := FuncDecl(wf, "WriteControlledStore", "DeleteUnchecked"); fd != nil {
+		uncheckedForwards = normSrc(t.Src(wrel, fd.Body)) == "{ return w.impl.Delete(messageIDs...) }"
+	}
+	// onDiskStore.Delete: inside the loop over the IDs the only way out is `return err` of a failed os.Remove
+	diskDeleteStops := false
+	if fd := FuncDecl(f, "onDiskStore", "Delete"); fd != nil {
+		for _, st := range fd.Body.List {
+			rs, ok := st.(*ast.RangeStmt)
+			if !ok {
+				continue
+			}
+			okShape := strings.Contains(normSrc(t.Src(rel, rs.Body)), "os.Remove(filepath.Join(c.path, messageID.String()))")
+			ast.Inspect(rs.Body, func(n ast.Node) bool {
+				switch x := n.(type) {
+				case *ast.ReturnStmt:
+					if len(x.Results) != 1 || normSrc(t.Src(rel, x.Results[0])) != "err" {
+						okShape = false
+					}
+				case *ast.BranchStmt: // continue / break / goto inside the loop
+					okShape = false
+				}
+				return true
+			})
+			diskDeleteStops = okShape
+		}
+	}
+
 	var sb strings.Builder
 	sb.WriteString("From Coq Require Import List NArith Bool.\nImport ListNotations.\nLocal Open Scope N_scope.\n\n")
 	sb.WriteString("(* store/disk.go *)\n")
@@ -397,5 +462,9 @@ func extractStore(t *T) (string, error) {
 	sb.WriteString("Definition acquire_is_one_critical_section : bool := " + coqBool(acqUnderLock && acqIncrements) + ".\n")
 	sb.WriteString("Definition acquire_resets_counter : bool := " + coqBool(acqResets && poolNewOne) + ".\n")
 	sb.WriteString("Definition ops_unlock_before_release : bool := " + coqBool(opsShape) + ".\n")
+	sb.WriteString("Definition release_uses_acquired_id : bool := " + coqBool(relSameID) + ".\n")
+	sb.WriteString("Definition batch_delete_is_per_id_loop : bool := " + coqBool(wcsDeleteLoop && uncheckedForwards) + ".\n")
+	sb.WriteString("(* store/disk.go Delete: the loop over the IDs is left only by returning the error of a failed os.Remove *)\n")
+	sb.WriteString("Definition disk_delete_stops_with_the_error : bool := " + coqBool(diskDeleteStops) + ".\n")
 	return sb.String(), nil
 }
